@@ -10,10 +10,10 @@
 package zzverif
 
 import (
-	"math"
 	"encoding/hex"
 	"encoding/json"
 	"fmt"
+	"math"
 	"os"
 	"strconv"
 	"strings"
